@@ -674,3 +674,118 @@ pub fn gen_func(ch: &mut Chooser, max_ops: usize) -> FuncGen {
         nvars,
     }
 }
+
+////////////////////////////////////////////////////////////////////////////////
+// f32 evaluation of every node (used to recognise points at which some
+// intermediate value is NaN, which the interval-enclosure guarantee exempts)
+
+pub fn eval_f32(d: &Dag, x: f32, y: f32, z: f32, vars: &[f32]) -> Vec<f32> {
+    let mut vals: Vec<f32> = Vec::with_capacity(d.n.len());
+    for e in &d.n {
+        let r = match *e {
+            Ex::X => x,
+            Ex::Y => y,
+            Ex::Z => z,
+            Ex::V(i) => vars[i],
+            Ex::C(c) => c,
+            Ex::U(op, a) => {
+                let a = vals[a];
+                match op {
+                    Un::Neg => -a,
+                    Un::Abs => a.abs(),
+                    Un::Recip => 1.0 / a,
+                    Un::Sqrt => a.sqrt(),
+                    Un::Square => a * a,
+                    Un::Floor => a.floor(),
+                    Un::Ceil => a.ceil(),
+                    Un::Round => a.round(),
+                    Un::Sin => a.sin(),
+                    Un::Cos => a.cos(),
+                    Un::Tan => a.tan(),
+                    Un::Asin => a.asin(),
+                    Un::Acos => a.acos(),
+                    Un::Atan => a.atan(),
+                    Un::Exp => a.exp(),
+                    Un::Ln => a.ln(),
+                    Un::Not => (a == 0.0) as u8 as f32,
+                }
+            }
+            Ex::B(op, a, b) => {
+                let (a, b) = (vals[a], vals[b]);
+                match op {
+                    Bin::Add => a + b,
+                    Bin::Sub => a - b,
+                    Bin::Mul => a * b,
+                    Bin::Div => a / b,
+                    Bin::Atan2 => a.atan2(b),
+                    Bin::Min => {
+                        if a < b {
+                            a
+                        } else if b < a {
+                            b
+                        } else if a.is_nan() || b.is_nan() {
+                            f32::NAN
+                        } else {
+                            b
+                        }
+                    }
+                    Bin::Max => {
+                        if a > b {
+                            a
+                        } else if b > a {
+                            b
+                        } else if a.is_nan() || b.is_nan() {
+                            f32::NAN
+                        } else {
+                            b
+                        }
+                    }
+                    Bin::Compare => a
+                        .partial_cmp(&b)
+                        .map(|c| c as i8 as f32)
+                        .unwrap_or(f32::NAN),
+                    Bin::Mod => a.rem_euclid(b),
+                    Bin::And => {
+                        if a == 0.0 {
+                            a
+                        } else {
+                            b
+                        }
+                    }
+                    Bin::Or => {
+                        if a != 0.0 {
+                            a
+                        } else {
+                            b
+                        }
+                    }
+                }
+            }
+        };
+        vals.push(r);
+    }
+    vals
+}
+
+impl Dag {
+    /// Nodes reachable from `roots`
+    pub fn reachable(&self, roots: &[usize]) -> Vec<bool> {
+        let mut seen = vec![false; self.n.len()];
+        let mut todo: Vec<usize> = roots.to_vec();
+        while let Some(i) = todo.pop() {
+            if seen[i] {
+                continue;
+            }
+            seen[i] = true;
+            match self.n[i] {
+                Ex::U(_, a) => todo.push(a),
+                Ex::B(_, a, b) => {
+                    todo.push(a);
+                    todo.push(b);
+                }
+                _ => (),
+            }
+        }
+        seen
+    }
+}
